@@ -299,6 +299,9 @@ func runC15(c *hx.Ctx) {
 	if dn, err := os.OpenFile(os.DevNull, os.O_WRONLY, 0); err == nil {
 		os.Stdout = dn
 	}
+	if c.St.Findings == nil {
+		c.St.Findings = []hx.Finding{} // marshal as [] (check iterates over it), also when nothing is found
+	}
 	var s *scen
 	defer func() { s.close() }()
 	for {
